@@ -20,7 +20,9 @@ const (
 	interval = time.Millisecond
 )
 
-var workloads = []string{"in-order", "loss", "duplicates", "reordering", "with-feedback", "loss-with-feedback", "retransmissions-lagging-ccfb"}
+var workloads = []string{"in-order", "loss", "duplicates", "reordering", "with-feedback", "loss-with-feedback", "retransmissions-lagging-ccfb", "many-streams"}
+
+const manyStreams = 120 // further local and remote streams of the "many-streams" workload: memory may depend on their number, not on the packets
 
 // Pair is one (interceptor, workload) measurement; JSON doubles as replay file.
 type Pair struct {
@@ -98,6 +100,23 @@ func runPair(p Pair) result { //nolint:cyclop,gocognit
 	rinfo := kit.RemoteInfo(0x7001, tw)
 	src := &kit.ByteSource{}
 	r := ic.BindRemoteStream(rinfo, src)
+	// "many-streams": 120 more streams each way, packets round-robin over all of them
+	type extraStream struct {
+		w        interceptor.RTPWriter
+		src      *kit.ByteSource
+		r        interceptor.RTPReader
+		out, in_ uint16
+	}
+	var extras []*extraStream
+	if p.Workload == "many-streams" {
+		for i := 0; i < manyStreams; i++ {
+			e := &extraStream{src: &kit.ByteSource{}}
+			e.w = ic.BindLocalStream(kit.LocalInfo(uint32(0x16000+i), tw, true, true), rtpSink) //nolint:gosec
+			e.r = ic.BindRemoteStream(kit.RemoteInfo(uint32(0x17000+i), tw), e.src)             //nolint:gosec
+			extras = append(extras, e)
+		}
+	}
+	rr := 0
 	x := p.Seed | 1
 	next := func() uint64 {
 		x ^= x << 13
@@ -113,14 +132,33 @@ func runPair(p Pair) result { //nolint:cyclop,gocognit
 	sendOne := func(seq uint16) {
 		twOut++
 		h := rtp.Header{Version: 2, SSRC: 0x6001, PayloadType: 96, SequenceNumber: seq, Timestamp: uint32(seq) * 90}
+		wr := w
+		if len(extras) > 0 {
+			if k := rr % (manyStreams + 1); k > 0 {
+				e := extras[k-1]
+				e.out++
+				h.SSRC, h.SequenceNumber, h.Timestamp = uint32(0x16000+k-1), e.out, uint32(e.out)*90 //nolint:gosec
+				wr = e.w
+			}
+		}
 		if !ccfb {
 			h = kit.WithTWCC(h, twccID, twOut)
 		}
-		_, _ = w.Write(&h, payload, nil)
+		_, _ = wr.Write(&h, payload, nil)
 	}
 	recvOne := func(seq uint16) {
 		twIn++
 		h := rtp.Header{Version: 2, SSRC: 0x7001, PayloadType: 96, SequenceNumber: seq, Timestamp: uint32(seq) * 90}
+		from, rd := src, r
+		if len(extras) > 0 {
+			if k := rr % (manyStreams + 1); k > 0 {
+				e := extras[k-1]
+				e.in_++
+				h.SSRC, h.SequenceNumber, h.Timestamp = uint32(0x17000+k-1), e.in_, uint32(e.in_)*90 //nolint:gosec
+				from, rd = e.src, e.r
+			}
+			rr++
+		}
 		if !ccfb {
 			h = kit.WithTWCC(h, twccID, twIn)
 		}
@@ -128,8 +166,8 @@ func runPair(p Pair) result { //nolint:cyclop,gocognit
 		if err != nil {
 			return
 		}
-		src.Push(rawBuf[:n])
-		_, _, _ = r.Read(buf, nil)
+		from.Push(rawBuf[:n])
+		_, _, _ = rd.Read(buf, nil)
 	}
 	feedback := func(k int) {
 		n := 40
@@ -223,7 +261,7 @@ func runPair(p Pair) result { //nolint:cyclop,gocognit
 	growing := n >= 3
 	var steps []string
 	for k := n - 2; k < n && growing; k++ {
-		grow := int64(res.Phases[k]) - int64(res.Phases[k-1])     //nolint:gosec
+		grow := int64(res.Phases[k]) - int64(res.Phases[k-1])      //nolint:gosec
 		growObj := int64(res.Objects[k]) - int64(res.Objects[k-1]) //nolint:gosec
 		tol := int64(32 << 10)
 		if t := int64(res.Phases[k-1] / 200); t > tol { //nolint:gosec
@@ -258,6 +296,8 @@ func knownFor(p Pair) string {
 	switch {
 	case p.Member == "rtpfb" && p.Workload != "with-feedback" && p.Workload != "loss-with-feedback" && p.Workload != "retransmissions-lagging-ccfb":
 		return "C12-rtpfb-history-without-feedback"
+	case p.Member == "jitterbuffer" && p.Workload == "many-streams":
+		return "C12-jitterbuffer-queue-grows-after-loss" // one buffer for all streams: every other stream's packet is a stale duplicate for it (DESIGN 8.2, observation d)
 	case p.Member == "jitterbuffer" && (p.Workload == "loss" || p.Workload == "loss-with-feedback" || p.Workload == "duplicates" || p.Workload == "reordering"):
 		return "C12-jitterbuffer-queue-grows-after-loss"
 	}
@@ -281,7 +321,7 @@ func TestMemoryBounded(t *testing.T) {
 	phases, per := kit.EnvInt("VERIF_C12_PHASES", 4), kit.EnvInt("VERIF_C12_PER_PHASE", 15000)
 	shard, nshards := kit.Shard()
 	rec := kit.NewRecorder("C12", "memory-phases",
-		fmt.Sprintf("every interceptor x workload {in-order, 5%% loss, 5%% duplicates, reordering, with periodic feedback, loss with feedback}: %d equal phases of %d packets each way; heap and object "+
+		fmt.Sprintf("every interceptor x workload {in-order, 5%% loss, 5%% duplicates, reordering, with periodic feedback, loss with feedback, retransmissions with lagging RFC 8888 feedback, 121 streams each way}: %d equal phases of %d packets each way; heap and object "+
 			"count after two forced GCs at each phase boundary; growth over the last phases must stay below max(32 KiB, 0.5%%) / 200 objects, and the heap must return to the baseline after Unbind/Close; "+
 			"non-trivial = the interceptor keeps per-packet state; distinct by (interceptor, workload, seed)", phases, per))
 	idx := 0
